@@ -24,14 +24,17 @@ import corpus
 from builders import c08b as B
 from run import Broken, Violation
 
-GEN = ["Encryption", "Wrappers"]
+GEN = ["Encryption", "Wrappers", "PdfCrypt"]
 RULE = ("containers built by reference writers (OLE2, BIFF, ZIP with chosen flag bits / methods, 7z coder chains, ODF / EPUB "
         "packages, pypdf-written PDFs) as encrypted/plain pairs: one mechanism switched at a time (marker stream name x case, "
         "FILEPASS at every record index, FIB bit 8 among random flag words, flag bit 0 per member incl. hidden and directory "
         "members, AES coder in data folder / header folder at each position, encryption-data element x namespace spelling vs. "
         "marker text in names/attributes/comments, EncryptedData depth / rights.xml, RC4-40/128 AES-128/256 x (user, owner) password in "
         "{('', none), ('', ''), ('', set), (pw, set), (pw, = user), (pw, '')} so that decrypt('') reports each PasswordType outcome, "
-        "the PDFs additionally read as one shuffled sequence in one process) + re-wrapped fixtures + the protected fixtures + a malformed stream (truncated / bit-flipped / random). "
+        "the PDFs additionally read as one shuffled sequence in one process; V4 / V5 PDFs whose /Encrypt dictionary has every legal "
+        "crypt-filter shape: filter name /StdCF | other | two filters, /StmF x /StrF in {RC4, AES, /Identity, absent}, /EFF, unused decoy "
+        "filters named /StdCF with the other method, indirect /CF, stray /CF below V4 — each with the empty and a real user password, "
+        "the data encrypted with exactly the declared methods; EVERY PDF verdict judged in a fresh interpreter as well) + re-wrapped fixtures + the protected fixtures + a malformed stream (truncated / bit-flipped / random). "
         "distinct = distinct (kind, container facts); non-trivial = the container parses far enough for the detector to look at it")
 ASSUMPTIONS = [
     "olefile: bytes -> root directory entries and stream contents; exists() is case-insensitive on the entry name",
@@ -40,7 +43,10 @@ ASSUMPTIONS = [
     "defusedxml / ElementTree: bytes -> element tree; iter() / findall('.//t') enumerate elements / proper descendants",
     "pypdf: is_encrypted, decrypt('') result (a PasswordType member: NOT_DECRYPTED / USER_PASSWORD / OWNER_PASSWORD, owner tried first); "
     "its writer's encrypt(user, owner) (absent owner password := user password); RC4 / AES handling (AES primitive: C20)",
-    "PDF verdicts are taken in this process after resetting pypdf's AES bindings; a failing one is re-judged in a fresh interpreter",
+    "PDF verdicts are taken in this process after resetting pypdf's AES bindings AND, for every PDF with a truth claim, in a fresh "
+    "interpreter (the replay command, entry points in rotating order); the two must agree",
+    "pypdf runs on its fallback crypto provider (no `cryptography` / `pycryptodome` installed): otherwise AES is native and the "
+    "provisioning model (S2T.Model.PdfCrypt) is vacuous",
     "the 7z container facts (coder ids per folder, header folder) are those the reference writer put in; parsing of the 7z header is C10/C12 territory",
     "consumers exhaust the generators (no throw()/close() at a yield)",
 ]
@@ -312,15 +318,43 @@ def _reset_pypdf_aes():
             setattr(fb.CryptAES, k, v)
 
 
+def _install_writer_aes():
+    """bind the library's AES *primitives* (aes_ecb/cbc_*, the functions C20 is about) into pypdf directly — NOT through
+    patch_pypdf_fallback_aes(), whose conditions / memory of earlier calls are under test here"""
+    import secrets
+    from sharepoint2text.parsing.extractors.pdf import _pypdf_aes_fallback as F
+    fb, providers, enc = _pypdf_mods()
+    for m in (fb, providers, enc):
+        for n in ("aes_ecb_encrypt", "aes_ecb_decrypt", "aes_cbc_encrypt", "aes_cbc_decrypt"):
+            if hasattr(m, n):
+                setattr(m, n, getattr(F, n))
+
+    def _init(self, key):
+        self.key = key
+
+    def _enc(self, data):
+        iv = secrets.token_bytes(16)
+        pad = 16 - len(data) % 16
+        return iv + F.aes_cbc_encrypt(self.key, iv, data + bytes([pad]) * pad)
+
+    def _dec(self, data):
+        iv, payload = data[:16], data[16:]
+        if not payload:
+            return payload
+        plain = F.aes_cbc_decrypt(self.key, iv, payload)
+        return plain[:-plain[-1]]
+
+    fb.CryptAES.__init__, fb.CryptAES.encrypt, fb.CryptAES.decrypt = _init, _enc, _dec
+
+
 @contextlib.contextmanager
 def _aes_for_writing():
-    """pypdf's fallback provider cannot do AES; to *write* AES test PDFs the library's patch is applied here and
-    fully undone afterwards."""
-    from sharepoint2text.parsing.extractors.pdf import _pypdf_aes_fallback as F
+    """pypdf's fallback provider cannot do AES; to *write* AES test PDFs an AES is bound into pypdf here and fully removed
+    afterwards (pypdf is back in the state of a fresh process)."""
     _snapshot_pristine()
-    ok = F.patch_pypdf_fallback_aes()
+    _install_writer_aes()
     try:
-        yield ok
+        yield True
     finally:
         _reset_pypdf_aes()
 
@@ -336,7 +370,9 @@ class Case:
         d = {"kind": self.kind, "ext": self.ext, "truth": self.truth, "key": self.key, "why": self.why, "entry": entry,
              "data_b64": _b64(self.data)}
         if self.facts and "original" in self.facts:
-            d["facts"] = self.facts
+            d["facts"] = {"original": self.facts["original"]}
+        if getattr(self, "entries", None):
+            d["entries"] = list(self.entries)
         return d
 
 
@@ -726,6 +762,111 @@ def gen_pdf_cases(ctx):
     return cases
 
 
+# ---- crypt-filter dictionaries (PDF 32000-1 §7.6.5).  The name of a filter in /CF is free, /StmF /StrF /EFF select by name,
+# /Identity is predefined and the default, /CF may hold filters nobody uses.  A library that decides anything by looking at a
+# filter called /StdCF (what the common writers emit) is wrong on every other legal layout.
+def _pdf_shapes(rng, thorough):
+    """[(pypdf algorithm, shape, label)]: deterministic core + (quick: a sample of / thorough: all of) the product
+    /StmF method x /StrF method x naming scheme for V4, the AES / Identity layouts for V5, stray /CF below V4"""
+    other = rng.choice(["DocCF", "MyFilter", "CF1", "stdcf", "StdCF2", "Std", "X"])
+    other2 = other + "b"
+
+    def v4(stm, st, naming, eff=None, indirect=False):
+        used = [m for m in (stm, st) if m in ("aes", "rc4")]
+        names = {}
+        if naming == "std":
+            pool = ["StdCF", other]
+        elif naming == "swap":
+            pool = [other, "StdCF"]
+        else:
+            pool = [other, other2]
+        for m in used:
+            if m not in names:
+                names[m] = pool[len(names)]
+        cf = [(n, m) for m, n in names.items()]
+        if naming == "decoy":      # an unused filter called /StdCF with the OTHER method, first in the dictionary
+            cf.insert(0, ("StdCF", "rc4" if stm == "aes" or st == "aes" else "aes"))
+        sh = {"cf": cf, "stmf": names.get(stm, stm), "strf": names.get(st, st)}
+        if eff == "unused-aes":
+            if "aes" not in names:
+                sh["cf"] = sh["cf"] + [("EmbCF", "aes")]
+                sh["eff"] = "EmbCF"
+            else:
+                sh["eff"] = names["aes"]
+        if indirect:
+            sh["indirect_cf"] = True
+        return sh
+
+    core = [
+        ("AES-128", v4("aes", "aes", "other"), "aes/aes other-name"),
+        ("AES-128", v4("aes", "aes", "std"), "aes/aes StdCF"),
+        ("AES-128", v4("aes", "rc4", "swap"), "stm aes (other name) / str rc4 named StdCF"),
+        ("AES-128", v4("rc4", "aes", "std"), "stm rc4 named StdCF / str aes (other name)"),
+        ("AES-128", v4("Identity", "aes", "other"), "stm Identity / str aes"),
+        ("AES-128", v4("aes", None, "other"), "stm aes / StrF absent"),
+        ("AES-128", v4("aes", "aes", "decoy"), "aes/aes other-name + unused /StdCF rc4"),
+        ("AES-128", v4("rc4", "rc4", "decoy"), "rc4/rc4 other-name + unused /StdCF aes"),
+        ("AES-128", v4("rc4", "rc4", "std"), "V4 rc4/rc4 StdCF"),
+        ("AES-128", v4("aes", "aes", "other", indirect=True), "aes/aes other-name, indirect /CF"),
+        ("AES-128", v4("rc4", "rc4", "other", eff="unused-aes"), "rc4/rc4, /EFF aes"),
+        ("AES-128", v4(None, None, "other"), "V4 without filters (all Identity)"),
+        ("AES-256-R5", {"cf": [(other, "aes")], "stmf": other, "strf": other}, "V5 aes/aes other-name"),
+        ("AES-256-R5", {"cf": [(other, "aes")], "stmf": "Identity", "strf": other}, "V5 stm Identity / str aes"),
+        ("RC4-128", {"cf": [("StdCF", "aes")], "stray_cf": True}, "V2 with a stray /CF"),
+        ("RC4-40", {"cf": [("StdCF", "aes")], "stray_cf": True}, "V1 with a stray /CF"),
+    ]
+    prod = []
+    for stm in ("aes", "rc4", "Identity", None):
+        for st in ("aes", "rc4", "Identity", None):
+            for naming in ("std", "other", "swap", "decoy"):
+                if naming == "swap" and len({m for m in (stm, st) if m in ("aes", "rc4")}) < 2:
+                    continue
+                for eff in (None, "unused-aes"):
+                    prod.append(("AES-128", v4(stm, st, naming, eff=eff, indirect=rng.random() < 0.2),
+                                 f"V4 stm={stm} str={st} naming={naming} eff={eff}"))
+    for stm in ("aes", "Identity", None):
+        for st in ("aes", "Identity", None):
+            for name in ("StdCF", other):
+                prod.append(("AES-256-R5", {"cf": [(name, "aes")] if "aes" in (stm, st) else [],
+                                            "stmf": name if stm == "aes" else stm, "strf": name if st == "aes" else st},
+                             f"V5 stm={stm} str={st} name={name}"))
+    if not thorough:
+        prod = rng.sample(prod, 10)
+    else:
+        prod.append(("AES-256", {"cf": [(other, "aes")], "stmf": other, "strf": other}, "V5/R6 aes/aes other-name"))
+    return core + prod
+
+
+def gen_pdf_shape_cases(ctx):
+    rng = ctx.rng
+    cases = []
+    pw = rng.choice(["pw123", "x", "ü-pass"])
+    with _aes_for_writing():
+        doc_id = bytes(rng.randrange(256) for _ in range(16))
+        plain = B.pdf_plain_with_strings([f"{_TOKEN} shaped (1)", f"second {_TOKEN} page"], doc_id)
+        cases.append(Case("pdf", "pdf", plain, "plain", "pdf.false-positive.unencrypted", "unencrypted 2-page PDF with strings in the page dictionaries",
+                          {"original": _b64(plain)}))
+        seen = set()
+        for alg, shape, label in _pdf_shapes(rng, ctx.thorough):
+            fp = (alg, repr(sorted(shape.items())))
+            if fp in seen:
+                continue
+            seen.add(fp)
+            v = "V5" if alg.startswith("AES-256") else "V4" if alg == "AES-128" else "V1-2"
+            for user, truth in (("", "plain"), (pw, "encrypted")):
+                if alg == "AES-256" and user:
+                    continue
+                data = B.pdf_encrypt_shaped(plain, user, _PDF_OWNER_SECRET, alg, shape, doc_id)
+                key = (f"pdf.false-positive.empty-password.crypt-filter-shape.{v}" if truth == "plain" else f"pdf.missed.password.crypt-filter-shape.{v}")
+                why = (f"{alg} PDF, {'EMPTY' if not user else repr(user)} user password, /Encrypt with /CF {shape['cf']!r} /StmF {shape.get('stmf')!r} "
+                       f"/StrF {shape.get('strf')!r} /EFF {shape.get('eff')!r}{' (indirect /CF)' if shape.get('indirect_cf') else ''} [{label}]")
+                f = {"shape": shape, "alg": alg}
+                if truth == "plain":
+                    f["original"] = _b64(plain)
+                cases.append(Case("pdf", "pdf", data, truth, key, why, f))
+    return cases
+
+
 def gen_fixture_cases(ctx):
     cases = []
     for fn, ext, data in _protected_fixtures():
@@ -880,6 +1021,155 @@ def _model_requests(case):
     return None
 
 
+# ----------------------------------------------------------------------------- PDF: AES provisioning (S2T.Model.PdfCrypt)
+def _aes_installed() -> bool:
+    """does pypdf (as the process stands) have a working AES behind every entry point it holds?  Judged by behaviour
+    (FIPS-197 vector / no DependencyError), not by the identity of the functions"""
+    from pypdf.errors import DependencyError
+    fb, providers, enc = _pypdf_mods()
+    z16 = bytes(16)
+    try:
+        for m in (fb, providers, enc):
+            if hasattr(m, "aes_ecb_encrypt") and m.aes_ecb_encrypt(z16, z16).hex() != "66e94bd4ef8a2c3b884cfa59ca342b2e":
+                return False
+            if hasattr(m, "aes_ecb_decrypt") and m.aes_ecb_decrypt(z16, bytes.fromhex("66e94bd4ef8a2c3b884cfa59ca342b2e")) != z16:
+                return False
+            if hasattr(m, "aes_cbc_encrypt"):
+                m.aes_cbc_encrypt(z16, z16, z16)
+            if hasattr(m, "aes_cbc_decrypt"):
+                m.aes_cbc_decrypt(z16, z16, z16)
+            if hasattr(m, "CryptAES"):
+                c = m.CryptAES(z16)
+                if c.decrypt(c.encrypt(b"probe")) != b"probe":
+                    return False
+    except DependencyError:
+        return False
+    return True
+
+
+def _pypdf_alone(data: bytes):
+    """pypdf WITHOUT the library (pristine fallback provider): 'ok' | 'dependency' (AES missing) | 'other:<type>'"""
+    from pypdf import PdfReader
+    from pypdf.errors import DependencyError
+    _reset_pypdf_aes()
+    try:
+        r = PdfReader(io.BytesIO(data))
+        if r.is_encrypted:
+            r.decrypt("")
+        for pg in r.pages:
+            pg.extract_text()
+        return "ok"
+    except DependencyError:
+        return "dependency"
+    except Exception as e:  # noqa
+        return "other:" + type(e).__name__
+
+
+def _pdf_open_correspondence(ctx, pdfs):
+    """model of `_open_pdf_reader` (generated guard / handler / binding facts) against the real function: for every generated
+    PDF, in a process without and with AES already patched in — does it return, and is AES installed afterwards?  Plus the
+    model's reading of the crypt-filter dictionary (which of stream / string method is AES) against pypdf on its own."""
+    from pypdf.errors import DependencyError
+    from sharepoint2text.parsing.extractors.pdf import _pypdf_aes_fallback as F
+    from sharepoint2text.parsing.extractors.pdf import pdf_extractor as P
+    broken, reqs, reals, metas = [], [], [], []
+    seen = set()
+    # the patch function itself, on pypdf as a fresh process has it: afterwards every AES entry point pypdf holds works
+    _reset_pypdf_aes()
+    F.patch_pypdf_fallback_aes()
+    if not _aes_installed():
+        broken.append(Broken("correspondence", "c08.pdfopen.patch", "patch_pypdf_fallback_aes() called on pristine pypdf bindings does not leave "
+                                                                    "pypdf with a working AES behind every binding it holds"))
+    for c in pdfs:
+        if c.data in seen:
+            continue
+        seen.add(c.data)
+        try:
+            facts = B.pdf_crypt_facts(c.data)
+        except Exception:
+            ctx.count("pdfopen/not-abstractable")
+            continue
+        alone = _pypdf_alone(c.data) if c.truth == "plain" and facts is not None else None
+        for state in (False, True):
+            _reset_pypdf_aes()
+            if state:
+                _install_writer_aes()
+            try:
+                P._open_pdf_reader(io.BytesIO(c.data))
+                ok = True
+            except (DependencyError, NotImplementedError):
+                ok = False
+            except Exception:
+                ctx.count("pdfopen/not-abstractable")
+                continue
+            real = {"ok": ok}
+            if ok:
+                real["aes"] = _aes_installed()
+            if alone is not None and not state and not alone.startswith("other:"):
+                real["_alone"] = alone
+            reqs.append({"op": "c08.pdfopen", "doc": facts, "aes": state})
+            reals.append(real)
+            metas.append(c)
+    _reset_pypdf_aes()
+    outs = ctx.drive(reqs)
+    bad = 0
+    for c, req, real, o in zip(metas, reqs, reals, outs):
+        ctx.case(("pdfopen", repr(req["doc"]), req["aes"]), nontrivial=req["doc"] is not None)
+        ctx.count(f"pdfopen/{'unencrypted' if req['doc'] is None else 'V%d' % req['doc']['v']}/aes-before={req['aes']}/" + "/".join(f"{k}={v}" for k, v in sorted(real.items())))
+        if "drv_error" in o:
+            broken.append(Broken("correspondence", "driver", o["drv_error"], case=c.replay()))
+            continue
+        msgs = [f"{k}: impl={v} model={o.get(k)}" for k, v in real.items() if not k.startswith("_") and o.get(k) != v]
+        if "_alone" in real:
+            want = "dependency" if (o.get("stmAes") or o.get("strAes")) else "ok"
+            if real["_alone"] != want:
+                msgs.append(f"pypdf on its own (no AES): {real['_alone']}, model reads the dictionary as stmAes={o.get('stmAes')} strAes={o.get('strAes')}")
+        if msgs:
+            bad += 1
+            if bad <= 6:
+                broken.append(Broken("correspondence", "c08.pdfopen", "; ".join(msgs) + f" :: aes-before={req['aes']} :: {c.why}", case=c.replay()))
+    ctx.coverage["pdfopen_mismatches"] = bad
+    return broken
+
+
+# ---- every PDF verdict in a FRESH interpreter.  The library's AES support is a process-wide, sticky patch (and a change may add
+# state of its own that `_reset_pypdf_aes` knows nothing about), so a verdict taken in this long-lived process — after dozens of
+# other PDFs — is evidence only if a fresh process gives the same one.
+_ENTRY_ORDERS = [["direct", "read_file", "cli"], ["read_file", "cli", "direct"], ["cli", "direct", "read_file"]]
+
+
+def _fresh_replays_parallel(reps, workers=4):
+    """[True | False | None] per replay payload, `workers` interpreters at a time"""
+    from concurrent.futures import ThreadPoolExecutor
+    with ThreadPoolExecutor(max_workers=workers) as ex:
+        return list(ex.map(_fresh_replay, reps))
+
+
+def _pdf_fresh_oracle(ctx, pdfs, inprocess_failed_keys=()):
+    """the property statement on every claimed PDF, each in its own interpreter (all three entry points, the first one —
+    the one that meets the untouched process — rotating over the cases)"""
+    out, todo, seen = [], [], set()
+    for c in pdfs:
+        if c.truth is None or c.data in seen:
+            continue
+        if ".AES-256" in c.key + "." and not c.key.endswith("AES-256-R5") and not ctx.thorough:
+            continue
+        seen.add(c.data)
+        c.entries = _ENTRY_ORDERS[len(todo) % 3]
+        todo.append(c)
+    res = _fresh_replays_parallel([c.replay(c.entries[0]) for c in todo])
+    keys = set()
+    for c, r in zip(todo, res):
+        ctx.count(f"oracle/fresh-process/{c.truth}/{'holds' if r else 'FAILS' if r is False else 'no-answer'}")
+        if r is False and c.key not in keys:
+            keys.add(c.key)
+            out.append(Violation(c.key, f"in a fresh interpreter (entry points in the order {c.entries}) the property fails on this input although "
+                                        f"{'it also fails' if c.key in inprocess_failed_keys else 'it holds'} in the long-lived checking process — input: {c.why}",
+                                 c.replay(c.entries[0])))
+    ctx.coverage["pdf_fresh_process_verdicts"] = len(todo)
+    return out
+
+
 _PDF_OUTCOMES_SEEN = set()
 
 
@@ -918,7 +1208,7 @@ def _validate_builders():
 
 def _all_cases(ctx):
     cases = []
-    for g in (gen_fixture_cases, gen_ole_cases, gen_xls_cases, gen_doc_cases, gen_zip_cases, gen_sz_cases, gen_odf_cases, gen_epub_cases, gen_pdf_cases):
+    for g in (gen_fixture_cases, gen_ole_cases, gen_xls_cases, gen_doc_cases, gen_zip_cases, gen_sz_cases, gen_odf_cases, gen_epub_cases, gen_pdf_cases, gen_pdf_shape_cases):
         cases += g(ctx)
     return cases
 
@@ -966,6 +1256,9 @@ def correspondence(ctx):
     sub = [c for i, c in enumerate(claimed) if i % ctx.n(6, 2) == 0 or "fixture" in c.key]
     violations += _oracle(ctx, sub, entries=("read_file",), cli_every=ctx.n(5, 2))
     violations += _pdf_sequence_oracle(ctx, [c for c in claimed if c.kind == "pdf"])
+    broken += _pdf_open_correspondence(ctx, [c for c in cases if c.kind == "pdf" and c.key != "malformed"])
+    failed = {v.key for v in violations}
+    violations += [v for v in _pdf_fresh_oracle(ctx, [c for c in claimed if c.kind == "pdf"], failed) if v.key not in failed]
     return {"broken": broken, "violations": violations}
 
 
@@ -1205,7 +1498,10 @@ def search(ctx, broken):
             cases.append(Case(b.case["kind"], b.case["ext"], base64.b64decode(b.case["data_b64"]), b.case["truth"], b.case["key"], b.case["why"]))
     cases += _legacy_witnesses()
     cases += [c for c in _all_cases(ctx) if c.truth is not None]
-    return _oracle(ctx, cases, entries=("direct", "read_file"), cli_every=3)
+    out = _oracle(ctx, cases, entries=("direct", "read_file"), cli_every=3)
+    failed = {v.key for v in out}
+    out += [v for v in _pdf_fresh_oracle(ctx, [c for c in cases if c.kind == "pdf"], failed) if v.key not in failed]
+    return out
 
 
 def replay(ctx, payload):
@@ -1228,7 +1524,7 @@ def replay(ctx, payload):
         c.facts = rep["facts"]
     msgs = []
     with tempfile.TemporaryDirectory(prefix="s2t_c08_") as td:
-        for entry in ("direct", "read_file", "cli"):
+        for entry in (rep.get("entries") or ("direct", "read_file", "cli")):
             m = _check_case(c, entry, td)
             if m:
                 msgs.append(m)
